@@ -474,6 +474,38 @@ func viewsTakenBeforeDecode(r *ev.Run) {
 						}
 					}
 				}
+				// (i') the same with rejected decodes between taking the views and the successful one
+				// (round 5, C02-A-r5 / C14-A-r5: a Decode that works on a copy of the receiver and
+				// swaps the embedded pointers on commit or roll-back orphans views taken earlier)
+				for _, rej := range []string{"CVSS:2.0/AV:N/AC:L", "", "garbage", "CVSS:3.1", "CVSS:3.1/ZZ", "AV:N/AC:L", "CVSS:9/"} {
+					d := lib.New(ver, level)
+					var early []any
+					for lv := 0; lv < level; lv++ {
+						early = append(early, lib.Sub(d, lv))
+					}
+					if o, _, _ := lib.Decode(d, rej); o != nil {
+						continue
+					}
+					obj, err, _ := lib.Decode(d, s)
+					n++
+					if err != nil || obj == nil {
+						continue // the rejected input left something behind that makes the vector a repeat: nothing to compare
+					}
+					for lv := 0; lv < level; lv++ {
+						ps := canonicalWritten(ver, lv, bg.ver, lang.Project(ver, lv, full))
+						ind, ierr, _ := lib.DecodeNew(ver, lv, ps)
+						if ierr != nil || ind == nil {
+							continue
+						}
+						if a, b := lib.Observe(early[lv]), lib.Observe(ind); a != b {
+							r.Violate(ev.Violation{Kind: "view-taken-before-decode-differs", Case: map[string]any{"cvss": ver, "decoder": spec.LevelNames[level], "history": []string{"d := constructor result", "v := the " + spec.LevelNames[lv] + " view of d", "d.Decode(" + rej + "), rejected", "d.Decode(" + s + ")", "query v"}, "projection": ps},
+								Observed: a.String(), Expected: b.String() + "  (independent decode of the projection)"})
+						}
+						if lib.Sub(obj, lv) != early[lv] {
+							r.Violate(ev.Violation{Kind: "accessor-not-stable", Case: map[string]any{"cvss": ver, "decoder": spec.LevelNames[level], "history": []string{"v := the " + spec.LevelNames[lv] + " view of the constructor result", "Decode(" + rej + "), rejected", "Decode(" + s + ")", "the accessor again"}}, Observed: "another pointer", Expected: "the embedded object the accessor returned before"})
+						}
+					}
+				}
 				// (ii)
 				for _, m := range spec.UpTo(ver, level) {
 					if m.Level == 0 || (ver == 2 && !lang.GroupPresent(full, m.Level)) {
